@@ -947,9 +947,8 @@ func boundedAbove(b *ssa.BasicBlock, v ssa.Value) bool {
 		}
 		return false
 	}
-	for _, pc := range pathConds(b) {
-		cond, neg := stripNot(pc.If.Cond)
-		taken := pc.Branch != neg
+	for _, pf := range pathFacts(b) {
+		cond, taken := pf.Cond, pf.Truth
 		bo, ok := cond.(*ssa.BinOp)
 		if !ok {
 			continue
